@@ -23,7 +23,19 @@ TRUSTED = ['statsmodels GLM (the fluctuation model) converges to the root of its
            'probe hook ZEPID_VERIF=1 in TMLE.fit (read-only copy of Qstar, Qstar1, Qstar0, H1W, H0W, delta, epsilon)']
 
 
-def gen_case(rng, force_pair=False):
+def gen_case(rng, force_pair=False, force_strong=False):
+    if force_strong:
+        # a binary outcome with a strong continuous prognostic factor: a correctly specified, converged outcome model predicts
+        # risks below 1e-4 and above 1 - 1e-4 for some rows (no truncation option, no missing data involved)
+        df, meta = datagen.mixed_frame(rng, n=rng.randint(500, 800), outcome='binary', missing=None)
+        rs = np.random.RandomState(rng.randrange(2 ** 31))
+        w0 = np.asarray(df['W0'], dtype=float)
+        z = (w0 - w0.mean()) / (w0.std() + 1e-9)
+        df = df.copy()
+        df['Y'] = rs.binomial(1, 1 / (1 + np.exp(-(rng.uniform(-0.5, 0.5) + 0.6 * np.asarray(df['A'], dtype=float) + rng.uniform(4.0, 5.0) * z)))).astype(float)
+        meta['yscale'] = 'strong prognostic factor'
+        return {'df': df, 'meta': meta, 'bound': False, 'bkind': 'none', 'miss_model': False, 'adtype': 'int64',
+                'alpha': 0.05, 'qbound': False, 'qkind': 'none+strong', 'refit': False, 'mbound': False}
     otype = rng.choice(['binary', 'binary', 'normal'])
     missing = rng.choice([None, None, 'mar', 'mcar']) if not force_pair else 'mar'
     extreme = rng.random() < 0.15 and not force_pair
@@ -192,6 +204,8 @@ def check_case(ctx, fails, case, tr, small_exprs, small_refs):
     # clever covariates are what the property says
     if np.max(np.abs(H1 - a / g1t)) > 1e-12 or np.max(np.abs(H0 + (1 - a) / g0t)) > 1e-12:
         fails.append((n, 'TMLE.clever-covariates', 'H1W/H0W differ from A/g1 and -(1-A)/g0', payload))
+    if binary and (float(np.min(np.asarray(tm.QA1W))) < 1e-4 or float(np.max(np.asarray(tm.QA1W))) > 1 - 1e-4):
+        ctx.count('binary outcome, initial predictions beyond [1e-4, 1 - 1e-4]')
     # (2) Qstar consistent with Qstar1/Qstar0 on the respective arms
     if np.max(np.abs(Qs - (a * Q1 + (1 - a) * Q0))) > 1e-10:
         fails.append((n, 'TMLE.update-inconsistent', 'Qstar differs from A*Qstar1 + (1-A)*Qstar0 by %g'
@@ -320,6 +334,7 @@ def run(ctx):
     fails = []
     cases = [gen_case(ctx.rng) for _ in range(40 if ctx.quick else 500)]
     cases += [gen_case(ctx.rng, force_pair=True) for _ in range(3 if ctx.quick else 25)]
+    cases += [gen_case(ctx.rng, force_strong=True) for _ in range(3 if ctx.quick else 25)]
     run_cases(ctx, fails, cases)
     report(ctx, fails)
 
